@@ -19,8 +19,15 @@ where
 
     let names_len =
         usize::try_from(l_nm).map_err(|e| io::Error::new(io::ErrorKind::InvalidData, e))?;
-    let mut names = vec![0; names_len];
-    reader.read_exact(&mut names).await?;
+
+    // The length is not yet validated, i.e., the buffer grows as data is read.
+    let mut names = Vec::new();
+    let limit =
+        u64::try_from(names_len).map_err(|e| io::Error::new(io::ErrorKind::InvalidData, e))?;
+
+    if (&mut *reader).take(limit).read_to_end(&mut names).await? < names_len {
+        return Err(io::Error::from(io::ErrorKind::UnexpectedEof));
+    }
 
     buf.extend(l_nm.to_le_bytes());
     buf.extend(names);
